@@ -207,11 +207,17 @@ class Gen:
         if kind in ("lit.real", "lit.real.typed", "lit.real.signed"):
             whole = r.randint(0, 999)
             frac = r.randint(0, 999)
+            if self.chance(0.3):
+                # round numbers: one or two significant digits, the shape people write (1.0E-7, 2.5e+3, 100.0)
+                whole = self.pick([0, 1, 2, 3, 5, 9, 10, 100])
+                frac = self.pick([0, 0, 1, 5, 25])
             s = "%d.%d" % (whole, frac)
             if self.chance(0.4):
                 s += self.pick(["E", "e"]) + self.pick(["", "+", "-"]) + str(r.randint(0, 12))
             v = float(s)
-            if v.is_integer() or "e" in repr(v):
+            if not v.is_integer() and "e-" in repr(v):
+                self.atom("lit.real.tiny")
+            if v.is_integer() or ("e" in repr(v) and "e-" not in repr(v)):
                 if not self.ok("lit.real.integral"):
                     s = "%d.%d" % (whole, self.rng.randint(1, 9) * 100 + self.rng.randint(1, 9))
                     v = float(s)
